@@ -220,7 +220,7 @@ def run_pass(world, pspec, vector):
 
     # --------------------------------------------------------------- threads
     results = [[None] * len(p) for p in progs]
-    regviews = [[(True, True)] * len(p) for p in progs]   # registration state seen by an op and by everything it was built from
+    regviews = [[None] * len(p) for p in progs]   # registration state seen by an op and by everything it was built from
     mviews = [dict() for _ in progs]
     res_dig = [[None] * len(p) for p in progs]
     privs = [dict() for _ in progs]
@@ -264,7 +264,7 @@ def run_pass(world, pspec, vector):
             sched.atomic[k] += 1
             site = f"T:{k}:{i}:{op['f']}"
             before_g = gexp
-            regb = vector._awkward_registered
+            regb = _reg_state(vector)
             ctx = faults.OpCtx(plan.get((k, i)))
             faults.set_ctx(ctx)
             sched.atomic[k] -= 1
@@ -300,11 +300,11 @@ def run_pass(world, pspec, vector):
             results[k][i] = val
             written = ops.written_refs(op)
             wpriv = [v_ for t_, v_ in written if t_ == "m" and v_ in privs[k]]
-            rb, ra = regb, vector._awkward_registered
+            rb, ra = regb, _reg_state(vector)
             for t_, v_ in ops.op_refs(op):
                 dv = regviews[k][v_] if t_ == "r" and 0 <= v_ < i else (mviews[k].get(v_) if t_ == "m" else None)
-                if dv is not None:
-                    rb, ra = rb and dv[0], ra and dv[1]
+                if dv is not None and (rb, ra) != tuple(dv):
+                    rb, ra = 0, 2  # built from values that saw another registration state: not comparable
             regviews[k][i] = (rb, ra)
             for key_ in ("bind", "defm"):
                 if key_ in op:
@@ -427,6 +427,20 @@ def run_pass(world, pspec, vector):
     if pspec.get("want_diag"):
         out["diag"] = {k_: v_ for k_, v_ in snapshot.vector_owned_state().items()}
     return out
+
+
+def _reg_state(vector):
+    """0 = not registered, 2 = registered, 1 = register_awkward() is half-way (the registry is updated
+    before the flag is set): outcomes seen in state 1, or across a change of state, are not comparable."""
+    import awkward
+
+    flag = bool(vector._awkward_registered)
+    have = ("*", "Vector2D") in awkward.behavior
+    if flag and have:
+        return 2
+    if not flag and not have:
+        return 0
+    return 1
 
 
 def _strip_ids(sn):
